@@ -255,7 +255,8 @@ def check_rows(kind, out, lkeys, rkeys, lrows, rrows, lnames, rnames):
     if not isinstance(out, Table): return '%s join returned %r' % (kind, type(out))
     if len(want) == 0:
         if len(out) != 0: return '%s join: expected no rows, got %r' % (kind, H.rows_of(out))
-        return None
+        if out.column_names() != list(lnames) + list(rnames): return '%s join with no result rows: column names %r, expected %r' % (kind, out.column_names(), list(lnames) + list(rnames))
+        return H.rect(out)
     got = H.rows_of(out)
     if not H.rows_eq(got, want): return '%s join of keys %r x %r: rows %r, definition gives %r' % (kind, lkeys, rkeys, got, want)
     if out.column_names() != list(lnames) + list(rnames): return '%s join: column names %r, expected %r' % (kind, out.column_names(), list(lnames) + list(rnames))
